@@ -24,11 +24,10 @@ Section UnfixedRefuted.
   Qed.
 
   Lemma unfixed_union_crashes :
-    exists m1 m2 sys, same_union m1 m2 /\ rank_names_proc m1 /\ Unfixed.build m1 = Crash /\ Unfixed.build m2 = Ok sys.
+    exists m1 m2 sys, same_union m1 m2 /\ Unfixed.build m1 = Crash /\ Unfixed.build m2 = Ok sys.
   Proof.
-    exists w_desc, w_asc. eexists. split; [|split; [|split]].
+    exists w_desc, w_asc. eexists. split; [|split].
     - repeat split; try (simpl; apply Permutation_refl); simpl; intros; tauto.
-    - intros k1 k2 r a b H. simpl in H. contradiction.
     - vm_compute. reflexivity.
     - vm_compute. reflexivity.
   Qed.
@@ -706,10 +705,40 @@ Proof.
   apply find_some in E. destruct E as [I E]. apply pkey_eqb_true in E. exists f. auto.
 Qed.
 
+(* the repaired orders (rank then PID; minimum rank then name) are total orders on all values:
+   sorting a permutation gives the same list whatever the ranks are *)
+Lemma proc_le_total st l p q : proc_le true st l p q = true \/ proc_le true st l q p = true.
+Proof. unfold proc_le. destruct (rank_enabled st l); lia. Qed.
+Lemma proc_le_trans st l p q r : proc_le true st l p q = true -> proc_le true st l q r = true -> proc_le true st l p r = true.
+Proof. unfold proc_le. destruct (rank_enabled st l); lia. Qed.
+Lemma proc_le_antisym st l p q : proc_le true st l p q = true -> proc_le true st l q p = true -> p = q.
+Proof. unfold proc_le. destruct (rank_enabled st l); lia. Qed.
+
+Lemma loom_le_total st br a b : loom_le true st br a b = true \/ loom_le true st br b a = true.
+Proof.
+  unfold loom_le. destruct br; [|apply str_le_total].
+  destruct (str_le_total a b) as [H | H]; rewrite H; lia.
+Qed.
+Lemma loom_le_trans st br a b c : loom_le true st br a b = true -> loom_le true st br b c = true -> loom_le true st br a c = true.
+Proof.
+  unfold loom_le. destruct br; [|apply str_le_trans].
+  intros H1 H2.
+  destruct (rank_min st a <? rank_min st c) eqn:E; [reflexivity|]. cbn [orb].
+  assert (Eab : rank_min st a = rank_min st b /\ rank_min st b = rank_min st c) by lia.
+  destruct Eab as [Eab Ebc]. rewrite Eab, Ebc, Z.ltb_irrefl, Z.eqb_refl in *. cbn [orb andb] in *.
+  eapply str_le_trans; eassumption.
+Qed.
+Lemma loom_le_antisym st br a b : loom_le true st br a b = true -> loom_le true st br b a = true -> a = b.
+Proof.
+  unfold loom_le. destruct br; [|apply str_le_antisym].
+  intros H1 H2.
+  assert (E : rank_min st a = rank_min st b) by lia.
+  rewrite E, Z.ltb_irrefl, Z.eqb_refl in *. cbn [orb andb] in *. apply str_le_antisym; assumption.
+Qed.
+
 Section FinishUnion.
   Variables (m1 m2 : list stream_meta) (st1 st2 : state).
   Hypothesis U : same_union m1 m2.
-  Hypothesis TIES : rank_names_proc m1.
   Hypothesis R1 : raw m1 = Ok st1.
   Hypothesis R2 : raw m2 = Ok st2.
 
@@ -752,17 +781,6 @@ Section FinishUnion.
   Lemma fu_rank_min l : rank_min st1 l = rank_min st2 l.
   Proof. change (lmin (loom_ranks st1 l) = lmin (loom_ranks st2 l)). apply lmin_perm, fu_loom_ranks. Qed.
 
-  (* in a loom whose processes all have a rank, the rank names the process *)
-  Lemma fu_rank_inj k1 k2 : 0 <= rank_of st1 k1 -> rank_of st1 k1 = rank_of st1 k2 -> k1 = k2.
-  Proof.
-    intros H E. destruct (rank_of_some st1 k1 H (tk_rank_nonneg _ _ W1)) as (f & If & Kf & Rf).
-    assert (H2 : 0 <= rank_of st1 k2) by lia.
-    destruct (rank_of_some st1 k2 H2 (tk_rank_nonneg _ _ W1)) as (g & Ig & Kg & Rg).
-    apply (tk_ranks _ _ W1) in If. apply (tk_ranks _ _ W1) in Ig.
-    destruct f as [kf [rf nf]], g as [kg [rg ng]]; simpl in *. subst kf kg.
-    assert (Erg : rg = rf) by lia. rewrite Erg in Ig. exact (TIES _ _ _ _ _ If Ig).
-  Qed.
-
   Lemma fu_all_ranked l : rank_enabled st1 l = true -> rank_incomplete st1 l = false ->
     forall p, In p (procs_of st1 l) -> 0 <= rank_of st1 (l, p).
   Proof.
@@ -785,19 +803,14 @@ Section FinishUnion.
     exists p. split; [exact Hp | split; [exact E|]]. rewrite <- E. apply fu_all_ranked; assumption.
   Qed.
 
-  Lemma fu_sort_loom l : rank_incomplete st1 l = false -> sort_loom st1 l = sort_loom st2 l.
+  Lemma fu_sort_loom l : sort_loom st1 l = sort_loom st2 l.
   Proof.
-    intros Inc. unfold sort_loom. rewrite <- fu_enabled.
-    assert (PS : isort (fun p q => if rank_enabled st1 l then rank_of st1 (l, p) <=? rank_of st1 (l, q) else p <=? q) (procs_of st1 l) =
-                 isort (fun p q => if rank_enabled st1 l then rank_of st2 (l, p) <=? rank_of st2 (l, q) else p <=? q) (procs_of st2 l)).
-    { rewrite (isort_ext (fun p q => if rank_enabled st1 l then rank_of st2 (l, p) <=? rank_of st2 (l, q) else p <=? q)
-                         (fun p q => if rank_enabled st1 l then rank_of st1 (l, p) <=? rank_of st1 (l, q) else p <=? q))
-        by (intros; rewrite !fu_rank_of; reflexivity).
-      destruct (rank_enabled st1 l) eqn:En.
-      - apply (isort_key_perm_eq (fun p => rank_of st1 (l, p))); [apply fu_procs_of|].
-        intros x y Hx Hy E. pose proof (fu_all_ranked l En Inc x Hx) as H0.
-        pose proof (fu_rank_inj _ _ H0 E) as K. congruence.
-      - apply (isort_key_perm_eq (fun p => p)); [apply fu_procs_of | auto]. }
+    unfold sort_loom, sort_loom_gen.
+    assert (PS : isort (proc_le true st1 l) (procs_of st1 l) = isort (proc_le true st2 l) (procs_of st2 l)).
+    { rewrite (isort_ext (proc_le true st2 l) (proc_le true st1 l))
+        by (intros x y; unfold proc_le; rewrite <- fu_enabled, !fu_rank_of; reflexivity).
+      apply isort_perm_eq; [apply proc_le_total | apply proc_le_trans | apply fu_procs_of|].
+      intros x y _ _. apply proc_le_antisym. }
     rewrite <- PS. f_equal; [f_equal|].
     - apply map_ext. intros p. rewrite fu_app_of. f_equal.
       apply (isort_key_perm_eq (fun t => t)); [apply fu_threads_of | auto].
@@ -808,33 +821,22 @@ Section FinishUnion.
 
   Lemma finish_union : finish st1 = finish st2.
   Proof.
-    pose proof EQ as (L & _). unfold finish.
+    pose proof EQ as (L & _). unfold finish, finish_gen.
     rewrite <- (existsb_ext_in (rank_incomplete st1) (rank_incomplete st2) (st_looms st2)) by (intros; apply fu_incomplete).
     rewrite <- (perm_existsb _ _ _ L).
     destruct (existsb (rank_incomplete st1) (st_looms st1)) eqn:Inc; [reflexivity|].
-    assert (IncF : forall l, In l (st_looms st1) -> rank_incomplete st1 l = false).
-    { intros l Hl. destruct (rank_incomplete st1 l) eqn:E; [|reflexivity].
-      assert (existsb (rank_incomplete st1) (st_looms st1) = true) by (apply existsb_exists; exists l; auto). congruence. }
     rewrite <- (forallb_ext_in (rank_enabled st1) (rank_enabled st2) (st_looms st2)) by (intros; apply fu_enabled).
     rewrite <- (perm_forallb _ _ _ L).
-    assert (LS : isort (fun a b => if forallb (rank_enabled st1) (st_looms st1) then rank_min st1 a <=? rank_min st1 b else str_le a b) (st_looms st1) =
-                 isort (fun a b => if forallb (rank_enabled st1) (st_looms st1) then rank_min st2 a <=? rank_min st2 b else str_le a b) (st_looms st2)).
-    { rewrite (isort_ext (fun a b => if forallb (rank_enabled st1) (st_looms st1) then rank_min st2 a <=? rank_min st2 b else str_le a b)
-                         (fun a b => if forallb (rank_enabled st1) (st_looms st1) then rank_min st1 a <=? rank_min st1 b else str_le a b))
-        by (intros; rewrite !fu_rank_min; reflexivity).
-      destruct (forallb (rank_enabled st1) (st_looms st1)) eqn:All.
-      - apply (isort_key_perm_eq (rank_min st1)); [exact L|].
-        intros a b Ha Hb E. rewrite forallb_forall in All.
-        destruct (fu_rank_min_attained a (All a Ha) (IncF a Ha)) as (p & _ & Ep & Nn).
-        destruct (fu_rank_min_attained b (All b Hb) (IncF b Hb)) as (q & _ & Eq & _).
-        assert (K : (a, p) = (b, q)) by (apply fu_rank_inj; lia). congruence.
-      - apply isort_perm_eq; [apply str_le_total | apply str_le_trans | exact L|].
-        intros x y _ _. apply str_le_antisym. }
+    set (br := forallb (rank_enabled st1) (st_looms st1)).
+    assert (LS : isort (loom_le true st1 br) (st_looms st1) = isort (loom_le true st2 br) (st_looms st2)).
+    { rewrite (isort_ext (loom_le true st2 br) (loom_le true st1 br))
+        by (intros x y; unfold loom_le; rewrite !fu_rank_min; reflexivity).
+      apply isort_perm_eq; [apply loom_le_total | apply loom_le_trans | exact L|].
+      intros x y _ _. apply loom_le_antisym. }
     rewrite <- LS.
     set (Ls := isort _ (st_looms st1)).
-    assert (MS : map (sort_loom st1) Ls = map (sort_loom st2) Ls).
-    { apply map_ext_in. intros l Hl. apply fu_sort_loom. apply IncF.
-      unfold Ls in Hl. eapply Permutation_in; [apply isort_perm | exact Hl]. }
+    assert (MS : map (sort_loom_gen true st1) Ls = map (sort_loom_gen true st2) Ls).
+    { apply map_ext. intros l. apply fu_sort_loom. }
     rewrite <- MS. reflexivity.
   Qed.
 End FinishUnion.
@@ -844,19 +846,19 @@ End FinishUnion.
 Lemma build_raw m : build m = bind (raw m) finish.
 Proof. reflexivity. Qed.
 
-Theorem build_union m1 m2 : rank_names_proc m1 -> same_union m1 m2 -> build m1 = build m2.
+Theorem build_union m1 m2 : same_union m1 m2 -> build m1 = build m2.
 Proof.
-  intros T U. rewrite !build_raw.
+  intros U. rewrite !build_raw.
   destruct (raw m1) as [st1| |] eqn:R1; destruct (raw m2) as [st2| |] eqn:R2; simpl; try reflexivity;
     try (exfalso; eapply raw_no_crash; eassumption).
-  - apply (finish_union m1 m2 st1 st2 U T R1 R2).
+  - apply (finish_union m1 m2 st1 st2 U R1 R2).
   - pose proof (raw_err_union _ _ (same_union_sym _ _ U) R2). congruence.
   - pose proof (raw_err_union _ _ U R1). congruence.
 Qed.
 
 Lemma finish_no_crash st : finish st <> Crash.
 Proof.
-  unfold finish. destruct (existsb (rank_incomplete st) (st_looms st)); [discriminate|].
+  unfold finish, finish_gen. destruct (existsb (rank_incomplete st) (st_looms st)); [discriminate|].
   match goal with |- (if ?c then _ else _) <> _ => destruct c end; discriminate.
 Qed.
 
@@ -878,9 +880,9 @@ Qed.
 Lemma finish_bad_loom st l :
   In l (st_looms st) -> loom_bad (sort_loom st l) = true -> finish st = Err.
 Proof.
-  intros Hl Hb. unfold finish. destruct (existsb (rank_incomplete st) (st_looms st)); [reflexivity|].
+  intros Hl Hb. unfold finish, finish_gen. destruct (existsb (rank_incomplete st) (st_looms st)); [reflexivity|].
   match goal with |- (if existsb loom_bad (map _ ?Ls) then _ else _) = _ => set (LS := Ls) end.
-  assert (E : existsb loom_bad (map (sort_loom st) LS) = true); [|rewrite E; reflexivity].
+  assert (E : existsb loom_bad (map (sort_loom_gen true st) LS) = true); [|rewrite E; reflexivity].
   apply existsb_exists. exists (sort_loom st l). split; [|exact Hb].
   apply in_map. unfold LS. eapply Permutation_in; [apply Permutation_sym, isort_perm | exact Hl].
 Qed.
@@ -972,7 +974,7 @@ Proof.
   - (* a loom without CPUs *)
     apply build_err_of_finish. intros st R. pose proof (raw_tables_ok _ _ R) as W.
     apply (finish_bad_loom st l); [apply (tk_looms _ _ W), loom_in_spec, Hl|].
-    unfold sort_loom. apply loom_bad_intro. right; left.
+    unfold sort_loom, sort_loom_gen. apply loom_bad_intro. right; left.
     assert (E : cpus_of st l = []).
     { apply no_elements. intros e He. apply in_cpus_of, (tk_cpus _ _ W) in He. exact (Hno e He). }
     rewrite E. reflexivity.
@@ -985,7 +987,7 @@ Proof.
       - destruct Hc as [Hc | []]; inversion Hc.
       - destruct Hc as [Hc | Hc]; [inversion Hc; reflexivity|]. apply in_map_iff in Hc. destruct Hc as (x & Hx & _). inversion Hx; reflexivity.
       - contradiction. }
-    apply (finish_bad_loom st l Hl). unfold sort_loom. apply loom_bad_intro. right; right.
+    apply (finish_bad_loom st l Hl). unfold sort_loom, sort_loom_gen. apply loom_bad_intro. right; right.
     set (cs := isort (fun c d : Z * Z => snd c <=? snd d) (cpus_of st l)).
     assert (PC : Permutation cs (cpus_of st l)) by apply isort_perm.
     assert (IC : forall e, In e cs <-> In (l, Some e) (cpu_claims m)).
@@ -1016,7 +1018,7 @@ Proof.
     assert (Hl : In l (st_looms st)).
     { apply (tk_looms _ _ W). destruct Hk as (s & Hs & Es). apply in_map_iff. exists s. split; [|exact Hs].
       unfold spkey in Es. inversion Es; reflexivity. }
-    apply (finish_bad_loom st l Hl). unfold sort_loom. apply loom_bad_intro. left.
+    apply (finish_bad_loom st l Hl). unfold sort_loom, sort_loom_gen. apply loom_bad_intro. left.
     apply existsb_exists. exists (p, app_of st (l, p), isort Z.leb (threads_of st (l, p))). split.
     + apply in_map_iff. exists p. split; [reflexivity|].
       eapply Permutation_in; [apply Permutation_sym, isort_perm|]. apply in_procs_of. exact Hp.
@@ -1034,22 +1036,22 @@ Proof.
     try (apply Permutation_in, perm_flat_map, Permutation_sym; exact P).
 Qed.
 
-Theorem build_perm m1 m2 : rank_names_proc m1 -> Permutation m1 m2 -> build m1 = build m2.
-Proof. intros T P. apply build_union; [exact T | apply perm_same_union; exact P]. Qed.
+Theorem build_perm m1 m2 : Permutation m1 m2 -> build m1 = build m2.
+Proof. intros P. apply build_union. apply perm_same_union; exact P. Qed.
 
-Theorem build_union_rows m1 m2 sys1 : rank_names_proc m1 -> same_union m1 m2 -> build m1 = Ok sys1 ->
+Theorem build_union_rows m1 m2 sys1 : same_union m1 m2 -> build m1 = Ok sys1 ->
   exists sys2, build m2 = Ok sys2 /\ thread_rows sys2 = thread_rows sys1 /\ cpu_rows sys2 = cpu_rows sys1.
-Proof. intros T U H. exists sys1. rewrite <- (build_union _ _ T U). auto. Qed.
+Proof. intros U H. exists sys1. rewrite <- (build_union _ _ U). auto. Qed.
 
-(* the hypothesis rank_names_proc is needed: with one rank in two processes the
-   stable sort keeps the enumeration order *)
+(* the code before patches/fix-c15-rank-ties.diff (no tie-break): with one rank in two processes
+   the stable sort keeps the enumeration order *)
 Definition w_tie1 : list stream_meta :=
   [mkS n0 100 101 (Some 1) (Some 0) (Some 1) (Some [(0, 0)]); mkS n0 200 201 (Some 2) (Some 0) (Some 1) None].
 Definition w_tie2 : list stream_meta :=
   [mkS n0 200 201 (Some 2) (Some 0) (Some 1) None; mkS n0 100 101 (Some 1) (Some 0) (Some 1) (Some [(0, 0)])].
 
-Lemma union_needs_distinct_ranks :
-  exists m1 m2 s1 s2, same_union m1 m2 /\ build m1 = Ok s1 /\ build m2 = Ok s2 /\ thread_rows s1 <> thread_rows s2.
+Lemma union_needs_distinct_ranks_old :
+  exists m1 m2 s1 s2, same_union m1 m2 /\ NoTieBreak.build m1 = Ok s1 /\ NoTieBreak.build m2 = Ok s2 /\ thread_rows s1 <> thread_rows s2.
 Proof.
   exists w_tie1, w_tie2. eexists. eexists. split; [|split; [|split]].
   - apply perm_same_union. apply perm_swap.
